@@ -165,6 +165,8 @@ def place_effect_attrs(rng, p):
                 if ty.kind in DEFAULTABLE and all(s.kind in DEFAULTABLE or True for s in ty.sub) and rng.random() < 0.4:
                     a["attrs"] = ["serde(default)"]
                     eff["default"].append((h["hid"], a["name"]))
+    if rng.random() < 0.4:
+        spec.add_shared_alias(rng, p)
     p["attr_effects"] = eff
     return p
 
@@ -356,6 +358,9 @@ def wide_programs(ctx):
     return {"wd00": out}
 
 
+LIFETIME_NAMES = ["'de", "'a", "'b", "'x"]
+
+
 def name_programs(ctx):
     out = {}
     names = CANDIDATE_NAMES
@@ -370,6 +375,22 @@ def name_programs(ctx):
     # the same program under two spellings of its parameter (everything the program publishes must be the same)
     out.setdefault("nm00", []).append(name_program("Param", 900, assoc=False, plain=True))
     out.setdefault("nm00", []).append(name_program("ParamT", 900, assoc=False, plain=True))
+    # lifetime names of the user's own: in a higher-ranked bound of the contract's where clause, in the bound of an interface's
+    # associated type, and as the contract's lifetime parameter (helper lifetimes of generated impls must stay clear of them)
+    for k, lt in enumerate(LIFETIME_NAMES):
+        q = name_program("Param", 700 + k, assoc=True)
+        q["name"] = f"nm_lt_w_{lt[1:]}_{k:02d}"
+        q["generics"][0]["hrtb"] = True
+        q["hrtb_lt"] = lt
+        out.setdefault(f"nm{k % 8:02d}", []).append(q)
+        q = name_program("Param", 720 + k, assoc=True)
+        q["name"] = f"nm_lt_a_{lt[1:]}_{k:02d}"
+        q["parts"][1]["assoc_hrtb"] = lt
+        out.setdefault(f"nm{(k + 3) % 8:02d}", []).append(q)
+        q = name_program("Param", 740 + k, assoc=True)
+        q["name"] = f"nm_lt_p_{lt[1:]}_{k:02d}"
+        q["lifetime"] = lt
+        out.setdefault(f"nm{(k + 5) % 8:02d}", []).append(q)
     for k, (n1, n2) in enumerate([("Msg", "Data"), ("Z", "A"), ("Query", "Param"), ("T", "E"), ("Item", "Custom"), ("Value", "Key"), ("Error", "Data")]):
         out.setdefault(f"nm{k % 8:02d}", []).append(pair_program(n1, n2, k))
     return out
